@@ -28,7 +28,7 @@ def run(ctx):
     from dtaidistance.clustering import hierarchical as H
     from scipy.cluster.hierarchy import linkage as sp_linkage
     rng = ctx.rng
-    N = 130 if ctx.quick else 3000
+    N = ctx.scale(900, 12000)
     for it in range(N):
         n = rng.randint(2, 14)
         kind = rng.choice(["alpha", "dyadic", "gauss"])
